@@ -18,6 +18,8 @@ import (
 
 // TermConfig configures R-TERM for a scope.
 type TermConfig struct {
+	// Positions: the property also states that reported positions lie inside the input (arms T-eof)
+	Positions bool
 	// Primitives: full names of functions each call of which consumes at
 	// least one unit of input (token, byte) or reports failure.
 	Primitives map[string]bool
@@ -547,6 +549,9 @@ func Termination(r *core.Run, sc *Scope, tc TermConfig) {
 		r.Floor("R-TERM/T-rec", tc.MinSites, "call sites inside recursion cycles reachable from the entry points")
 	}
 	CostBounds(r, sc, tc.Table)
+	if tc.Positions {
+		SentinelRuns(r, sc, tc, sentinels)
+	}
 }
 
 func keysOf(m map[string]bool) string {
